@@ -6,6 +6,13 @@ R-C15a  in user_interface.to_onnx no call that receives the IR model (`result`) 
 R-C15b  _save_model_proto: the web branch saves with save_as_external_data=False and removes a
         pre-existing sidecar before returning; the standard branch spills to a sidecar whose location is
         derived from the destination's basename, in one file
+R-C15c  standard-mode sidecar removal: an `os.remove(<sidecar>)` outside the web branch deletes the
+        file the just-saved model may reference.  It must be (i) control-dependent on a test that reads the
+        *saved* proto's `.external_data` — evaluated after onnx.save_model, which is what decides the
+        spill — and (ii) placed after the save.  (Deleting a non-empty but unreferenced sidecar is
+        harmless, so the `getsize == 0` restriction of today's code is not required.)  A spill decision
+        re-computed by the exporter itself (raw_data length vs. threshold) can disagree with onnx's and
+        then deletes a referenced sidecar or keeps a stale one
 """
 from __future__ import annotations
 
@@ -101,6 +108,42 @@ def run(res: Results, idx: Index, tier: str) -> None:
         res.ok("R-C15b", f"{UI}:{std[0].lineno}", key, "sidecar location = basename(dest) + suffix, one file", s.qualname)
     else:
         res.violation("R-C15b", f"{UI}:{(std or [s.node])[0].lineno}", key, "the standard export does not name a single sidecar after the destination's basename: exports to different paths in one directory would share or miss their data file", s.qualname)
+    # ---------------- R-C15c
+    res.rule("R-C15c", "the standard export deletes a sidecar only after the save and only when the saved model references no external data", floor=1)
+    std_removes = [c for c in walk_no_nested(s.node) if isinstance(c, ast.Call) and (call_name(c) or "") in ("os.remove", "os.unlink", "shutil.rmtree", "os.rmdir") and c not in removes]
+    if not std and std_removes:
+        raise AnalysisError("_save_model_proto: no standard save_model call found")
+    for i, c in enumerate(std_removes):
+        key = f"{UI}::_save_model_proto::standard-sidecar-removal#{i}"
+        site = f"{UI}:{c.lineno}"
+        conds = path_conditions(c)
+        save_line = max(x.lineno for x in std)
+
+        def _reads_saved_external(e: ast.AST, seen=None) -> bool:
+            seen = seen or set()
+            for x in ast.walk(e):
+                if isinstance(x, ast.Attribute) and x.attr == "external_data" and x.lineno > save_line:
+                    return True
+                if isinstance(x, ast.Name) and x.id not in seen:
+                    seen.add(x.id)
+                    for d in du_s.defs.get(x.id, []):
+                        if d.value is not None and d.stmt.lineno > save_line and _reads_saved_external(d.value, seen):
+                            return True
+            return False
+        ext = [(e, w) for e, w in conds if _reads_saved_external(e)]
+        empty = [(e, w) for e, w in conds if w and isinstance(e, ast.Compare) and any(isinstance(x, ast.Call) and (call_name(x) or "").endswith("getsize") for x in ast.walk(e)) and any(isinstance(x, ast.Constant) and x.value == 0 for x in ast.walk(e)) and all(isinstance(o, ast.Eq) for o in e.ops)]
+        after = c.lineno > save_line
+        if ext and after:
+            res.ok("R-C15c", site, key, "removal happens after the save and only when no initializer of the saved proto has external_data" + (" (and only for an empty file)" if empty else ""), s.qualname)
+        else:
+            miss = []
+            if not after:
+                miss.append("it runs before the save")
+            if not ext:
+                miss.append("it does not depend on the saved proto's external_data (the exporter's own spill estimate can disagree with onnx.save_model)")
+            res.violation("R-C15c", site, key, "the standard export deletes the sidecar although the saved model may reference it: " + "; ".join(miss), s.qualname)
+    if not std_removes:
+        res.ok("R-C15c", f"{UI}:{s.node.lineno}", f"{UI}::_save_model_proto::standard-sidecar-removal", "the standard branch never deletes a sidecar", s.qualname)
     # every branch returns the destination
     key = f"{UI}::_save_model_proto::returns-dest"
     rets = [r for r in walk_no_nested(s.node) if isinstance(r, ast.Return)]
